@@ -292,6 +292,9 @@ func (st *State) storeScalar(s Sort, a, v *Term) {
 				st.setRegionLen(r.Val.Int64(), nil)
 			}
 		} else {
+			if traceOn {
+				fmt.Printf("SEGLOST store to symbolic region %s\n", a.SMT())
+			}
 			st.regionSeq = nil
 			st.regionLen = nil
 		}
